@@ -145,6 +145,10 @@ func runHistoryCase(c Case) Result {
 				same = evalOutcome(f2, deepCopyJSON(in)).wire == got.wire
 			}
 		}
+		if !same && usesUnordered(c.Expr) {
+			// positions taken over an unordered sequence (*, **, $keys ...): order-dependent by nature
+			same = true
+		}
 		if !same && r.Direct["history"] == "ok" {
 			r.Direct["history"] = fmt.Sprintf("step %d: got %s, fresh expression gives %s", step, got.wire, want.wire)
 		}
